@@ -157,7 +157,15 @@ var atomClass = [][3]string{
 	{"avs.deregisterOperatorFromAVS", "invalid operator address", "IsOperator"},
 	{"avs.registerOperatorToAVS", "already opted in", "IsOptedIn"},
 	{"avs.deregisterOperatorFromAVS", "not opted in", "IsActive"},
+	{"avs.deregisterOperatorFromAVS", "the operator hasn't opted", "IsActive"},
+	{"avs.deregisterOperatorFromAVS", "the operator h", "IsActive"},
 	{"avs.createTask", "the taskaddr is", "GetAVSInfoByTaskAddress"},
+	{"avs.createTask", "not qualified to CreateAVSTask", "owner contains caller"},
+	{"avs.createTask", "the votingpower of avs", "GetAVSUSDValue>0"},
+	{"avs.createTask", "epoch info not found", "GetEpochInfo"},
+	{"avs.createTask", "the task is :", "IsExistTask"},
+	{"avs.createTask", "failed to get opt-in operators", "GetOptInOperators"},
+	{"avs.createTask", "the contract input parameter type or value error", "GetTaskParamsFromInputs"},
 }
 
 func atomClassify(entry, errText string) string {
@@ -427,7 +435,7 @@ func (h *atomH) step() {
 	c := h.c
 	gw := h.caller()
 	bad := r.Chance(1, 3)
-	switch r.Pick(10, 6, 6, 5, 8, 6, 3, 3, 3, 3, 3, 4, 3, 3, 3, 2, 3) {
+	switch r.Pick(10, 6, 6, 5, 8, 6, 3, 3, 3, 3, 3, 4, 3, 3, 3, 2, 3, 4) {
 	case 0: // depositLST
 		amt := h.amount(6)
 		ak, sb, cid := 0, h.stakerBytes(false), h.chainID(false)
@@ -650,13 +658,32 @@ func (h *atomH) step() {
 			})
 	case 15: // keeper: UpdateVotingPower for an existing / unknown AVS
 		avs := c.AVSAddr
-		if r.Bool() {
+		switch r.Intn(3) {
+		case 0:
 			avs = "0x00000000000000000000000000000000000000aa"
+		case 1:
+			avs = h.others[0].Eth.String() // the AVS registered by the harness (keys use the checksummed form the precompile stores)
 		}
 		h.keeper("operator.UpdateVotingPower", "keeper UpdateVotingPower avs="+avs,
 			func(ctx sdk.Context) error { return c.App.OperatorKeeper.UpdateVotingPower(ctx, avs) })
 	case 16: // signed messages
 		h.msgStep()
+	case 17: // AVS precompile createTask: from the AVS (= its own task address) or a non-AVS address, sender argument owner / non-owner;
+		// the AVS has no voting power until an operator opted in and UpdateVotingPower ran, so most owner calls are refused
+		// AFTER the owner check (voting power) — nothing, in particular no task id, may be consumed
+		from := h.others[0].Eth
+		if r.Chance(1, 5) {
+			from = h.others[1].Eth
+		}
+		sender := h.others[0].Eth
+		if r.Chance(1, 4) {
+			sender = h.stakers[0].Eth
+		}
+		name := "task"
+		if bad && r.Chance(1, 3) {
+			name = ""
+		}
+		h.evm("avs.createTask", from, xbAvsAddr, h.abis.avs, "createTask", sender, name, []byte("task-hash"), uint64(2), uint64(2), uint64(60), uint64(1))
 	}
 	if r.Chance(1, 12) {
 		h.block(time.Duration(1+r.Intn(3)) * time.Second)
@@ -746,6 +773,9 @@ func (h *atomH) directed() {
 		h.keeper("operator.Slash", fmt.Sprintf("keeper Slash #%d id=%s prop=%s contract=%q", i, p.SlashID, p.SlashProportion, p.SlashContract),
 			func(ctx sdk.Context) error { return c.App.OperatorKeeper.Slash(ctx, p) })
 	}
+	// createTask refused after the owner check (the AVS has no voting power) and at the owner check: no task id may be consumed
+	h.evm("avs.createTask", h.others[0].Eth, xbAvsAddr, h.abis.avs, "createTask", h.others[0].Eth, "task", []byte("task-hash"), uint64(2), uint64(2), uint64(60), uint64(1))
+	h.evm("avs.createTask", h.others[0].Eth, xbAvsAddr, h.abis.avs, "createTask", h.stakers[0].Eth, "task", []byte("task-hash"), uint64(2), uint64(2), uint64(60), uint64(1))
 	// F-09d: two NST stakers; balance change flags staker 0 (-1) and staker 1 with a change that takes
 	// its balance out of range: staker 0 is updated and stored, then the call fails.
 	st1 := pad32(h.stakers[1].Eth.Bytes())
@@ -793,6 +823,13 @@ func (h *atomH) boot(seed uint64) {
 	}
 	h.hist = []string{fmt.Sprintf("boot seed=%d assets=USDT(6),NST(18) operators=2 gateway=%s", seed, h.c.Funded.Eth.Hex())}
 	h.env.Op("at.reset", "ok")
+	// others[0] registers itself as an AVS whose task address is its own address and whose only owner it is
+	a0 := h.others[0]
+	if h.evm("avs.registerAVS", a0.Eth, xbAvsAddr, h.abis.avs, "registerAVS", a0.Eth, "harnessAVS", uint64(1), a0.Eth,
+		NewActor(seed, "slashc", 0).Eth, NewActor(seed, "rewardc", 0).Eth, []string{a0.Acc.String()}, []string{h.c.AssetIDs[0]},
+		uint64(2), uint64(0), "day", []uint64{1, 1, 5, 5}) != "ok" {
+		h.env.Note("setup-registerAVS-refused")
+	}
 }
 
 func domAtomic(env *Env) error {
